@@ -154,6 +154,13 @@ def run_case(case):
                 start(i, rq)
             else:
                 hooks.append((loop.time() + delay / 1000.0, (lambda i=i, rq=rq: start(i, rq))))
+        # callers cancelled at chosen instants (cancellation is an outcome too: nothing of the request may remain, later requests proceed)
+        def cancel(i):
+            if i < len(tasks) and not tasks[i].done():
+                ev({"a": "cancel", "r": i + 1})
+                tasks[i].cancel()
+        for (i, at) in case.get("cancel", []):
+            hooks.append((loop.time() + at / 1000.0, (lambda i=i: cancel(i))))
         # unsolicited confirmations
         for (at, dst, tag, ok) in case.get("unsolicited", []):
             hooks.append((loop.time() + at / 1000.0, (lambda dst=dst, tag=tag, ok=ok: emit_conf(dst, tag, ok))))
@@ -216,6 +223,19 @@ def gen_cases(ctx):
             for stagger in (0, 300, 700):
                 cases.append({"ver": ver, "rot": ver, "reqs": m, "stagger": stagger,
                               "unsolicited": [(10, 0x9999, 3, True), (650, 0x1111, 200, False)]})
+        # cancellation of a caller at every stage (waiting for the lock behind another request, busy delay, waiting for the confirmation),
+        # followed by a further request that must go through
+        for ans, confs in ((["ok"], []), (["busy", "busy", "ok"], [(50, 0, 0, True)]), (["busy", "ok"], []), (["ok"], [(3000, 0, 0, True)])):
+            for at in (0, 1, 250, 600, 1100, 2500):
+                for variant in ({}, {"sr": 1, "ext": 1}):
+                    if ctx.quick and (at + ver) % 2:
+                        continue
+                    reqs = [dict(kind="unicast", dst=0x1111, ans=list(ans), confs=list(confs), **variant),
+                            dict(kind="unicast", dst=0x2222, ans=["busy", "ok"], confs=[(30, 0, 0, True)], sr=1),
+                            dict(kind="unicast", dst=0x3333, ans=["ok"], confs=[(30, 0, 0, True)])]
+                    for who in (0, 1):
+                        cases.append({"ver": ver, "rot": at + ver, "reqs": reqs, "stagger": 0 if who == 0 else 5, "cancel": [(who, at)],
+                                      "late": 1})
         for _ in range(4 if ctx.quick else 600):
             n = rng.randint(2, 4)
             reqs = []
@@ -227,7 +247,8 @@ def gen_cases(ctx):
                 reqs.append(dict(kind=kind, dst=dst, ans=rng.choice(answer_seqs), confs=rng.choice(conf_sets) if kind == "unicast" else [],
                                  sr=int(rng.random() < 0.4), ext=int(rng.random() < 0.4), ieee=int(rng.random() < 0.2)))
             cases.append({"ver": ver, "rot": rng.randrange(100), "reqs": reqs, "stagger": rng.choice((0, 100, 499, 500, 1200)),
-                          "in_addr_table": rng.random() < 0.7, "source_routing": rng.random() < 0.3})
+                          "in_addr_table": rng.random() < 0.7, "source_routing": rng.random() < 0.3,
+                          "cancel": [(rng.randrange(n), rng.choice((0, 1, 300, 600, 1500, 5000)))] if rng.random() < 0.3 else []})
     return cases
 
 
@@ -242,7 +263,7 @@ def run(ctx: Ctx):
     ctx.rule = ("per protocol version 4..14: single unicasts (plain, source route, extended timeout, IEEE-addressed) x enqueue-status sequences (accepted, refused, "
                 "busy then accepted, busy to exhaustion, busy then refused; concrete busy/refusal statuses rotated) x confirmation patterns (own success / failure, none, "
                 "foreign tag, foreign destination, overtaking the enqueue answer, duplicate, failure then success); concurrent mixes of unicast / multicast / broadcast "
-                "started together or staggered, with unsolicited confirmations; random mixes; distinct = distinct case")
+                "started together or staggered, with unsolicited confirmations; callers cancelled at every stage followed by further requests; random mixes; distinct = distinct case")
     ctx.add_sample({"case": cases[5], "trace": traces[5]})
     ctx.validate_traces("Trace_SendPacket", traces, metas=cases, label="send_packet", sig=sig)
     ctx.exhaustive = False
@@ -256,6 +277,7 @@ def replay(ctx: Ctx, data):
     for rq in m["reqs"]:
         rq["confs"] = [tuple(c) for c in rq["confs"]]
     m["unsolicited"] = [tuple(u) for u in m.get("unsolicited", [])]
+    m["cancel"] = [tuple(u) for u in m.get("cancel", [])]
     tr = run_case(m)
     ctx.validate_traces("Trace_SendPacket", [tr], metas=[m], label="send_packet", sig=sig)
     ctx.add_sample(tr)
